@@ -512,4 +512,37 @@ theorem no_hull_without_triangle (h pts : List Pt) (hs : isStrictHull h pts = tr
     simp only [List.any_eq_true, bne_iff_ne, ne_eq]
     exact ⟨a, hv a (by simp), b, hv b (by simp), c, hv c (by simp), ne_of_gt hpos⟩
 
+
+/-! ### Witnesses of the two repaired defects (why `quick_hull` verifies its ring) -/
+
+/-- F6 input: equally far points in the farthest-point search -/
+def f6Input : List Pt := [⟨2, 0⟩, ⟨5, 0⟩, ⟨4, 0⟩, ⟨5, 0⟩, ⟨4, 5⟩, ⟨5, 5⟩, ⟨4, 2⟩, ⟨4, 0⟩, ⟨0, 5⟩]
+
+/-- K5 input: coordinates around `2^52`, the dot product is rounded -/
+def k5Input : List Pt :=
+  [⟨-4503599627370496, -4503599627370496⟩, ⟨4503599627370496, 4503599627370496⟩,
+   ⟨0, 3 / 8⟩, ⟨1 / 8, 1 / 4⟩, ⟨1 / 4, 5 / 16⟩]
+
+/-- [T] F6: in exact arithmetic (any scalar type) the unverified quick-hull ring keeps `(4,0)`
+between `(2,0)` and `(5,0)` and is not the strict hull; `quick_hull` with the guard is. -/
+theorem quickHullRaw_tie_witness :
+    isStrictHull (quickHullRaw id f6Input).2 f6Input = false ∧
+    (quickHullRaw id f6Input).2 = [⟨2, 0⟩, ⟨4, 0⟩, ⟨5, 0⟩, ⟨5, 5⟩, ⟨0, 5⟩, ⟨2, 0⟩] ∧
+    isStrictHull (quickHull id f6Input) f6Input = true := by
+  decide +kernel
+
+/-- [T] K5: with binary64 rounding the unverified ring is not the strict hull although it is with
+exact arithmetic; `quick_hull` with the guard returns the strict hull. -/
+theorem quickHullRaw_rounding_witness :
+    isStrictHull (quickHullRaw roundF64 k5Input).2 k5Input = false ∧
+    isStrictHull (quickHullRaw id k5Input).2 k5Input = true ∧
+    isStrictHull (quickHull roundF64 k5Input) k5Input = true := by
+  decide +kernel
+
+/-- sanity of the binary64 rounding model: ties go to the even mantissa, 0.1 is the usual double -/
+example : roundF64 18014398509481983 = 18014398509481984 ∧ roundF64 9007199254740993 = 9007199254740992 ∧
+    roundF64 9007199254740995 = 9007199254740996 ∧
+    roundF64 (1 / 10) = 3602879701896397 / 36028797018963968 := by
+  decide +kernel
+
 end Geo.Proofs.C08
